@@ -132,7 +132,7 @@ def rules_c09(ctx):
 def rules_c10(ctx):
     S = p_search
     return (S.rule_range_form(ctx, 'eliasfano') + S.rule_agree_eps(ctx, 'eliasfano') + S.rule_clamp(ctx, 'eliasfano') + S.rule_cap(ctx, 'eliasfano') +
-            S.rule_rebase_agree(ctx) + S.rule_conv_range(ctx, 'eliasfano') + p_eliasfano.rule_select_range(ctx) + p_eliasfano.rule_beyond_value(ctx))
+            S.rule_rebase_agree(ctx) + S.rule_conv_range(ctx, 'eliasfano') + p_eliasfano.rule_select_range(ctx) + p_eliasfano.rule_beyond_value(ctx) + S.rule_upper_level_sentinel(ctx, 'eliasfano'))
 
 
 _SEARCH_ND = ('that every constraint point is within Epsilon of its segment, that float slopes and size_t(slope*double(k-key)) round inside the +2 slack, '
@@ -315,8 +315,9 @@ PROPS['C15'] = {
     'decides': [
         'INDEX-SYNC: in pairwise_merge, insert and the bulk-load constructor every mutation of level(x), x not the buffer level, is followed on all paths (before the function returns or moves to the next level) by `if (has_pgm(x)) pgm(x) = ...`, '
         'with PGMType() when the level was emptied and PGMType(level(x).begin(), level(x).end()) when it was refilled',
+        'MERGE-PRECEDENCE (emission clauses): merge() emits the smaller element of the two runs, one element on a tie, and emits in bulk only after one run is exhausted or under a guard that puts one whole run strictly before the other - necessary for a merged level to stay strictly sorted',
     ],
-    'not_decided': 'sortedness of the levels, capacity bounds, "no data beyond the used levels": history and arithmetic',
+    'not_decided': 'sortedness of the levels as a whole, capacity bounds, "no data beyond the used levels": history and arithmetic',
     'explanation': 'Clause-level static claim for C15 (the index-in-sync clause): a stale or missing per-level index is exactly the violation of the last clause of the property, while answers stay right for most keys.',
 }
 
